@@ -405,9 +405,12 @@ private:
         }
         else if (theChar <= 0xFFFF)
         {
-            // We should never get a high or low surrogate here...
-            assert(theChar < 0xD800 || theChar > 0xDBFF);
-            assert(theChar < 0xDC00 || theChar > 0xDFFF);
+            // A high or low surrogate here is an unpaired surrogate in
+            // the input; it has no UTF-8 encoding.
+            if (0xD800 <= theChar && theChar <= 0xDFFF)
+            {
+                throwInvalidCharacterException(theChar, getMemoryManager());
+            }
 
             if (m_bufferRemaining < 3)
             {
